@@ -5,6 +5,7 @@ package main
 // (hits are counted per run and written to the evidence file).
 
 import (
+	"crypto/sha3"
 	"crypto/sha256"
 	"crypto/sha512"
 	"fmt"
@@ -359,6 +360,21 @@ func (w *Worker) hashBytes(fn string, data []value) []value {
 			sum = sha512.Sum512_256(conc)
 		case "sha256":
 			sum = sha256.Sum256(conc)
+		case "cshake128", "cshake256":
+			// data = len(N) N len(S) S message (see the cSHAKE model in crypto.go); 32 bytes of output
+			n, sOff := int(conc[0])<<8|int(conc[1]), 0
+			N := conc[2 : 2+n]
+			sOff = 2 + n
+			sl := int(conc[sOff])<<8 | int(conc[sOff+1])
+			S := conc[sOff+2 : sOff+2+sl]
+			var x *sha3.SHAKE
+			if fn == "cshake128" {
+				x = sha3.NewCSHAKE128(N, S)
+			} else {
+				x = sha3.NewCSHAKE256(N, S)
+			}
+			_, _ = x.Write(conc[sOff+2+sl:])
+			_, _ = x.Read(sum[:])
 		}
 		for i := range out {
 			out[i] = uint64(sum[i])
